@@ -8,6 +8,7 @@
   * `RenderLemmas` – trimming of rendered lines, `parseLine` of a rendered line
   * `ScriptLemmas` – `parseLinesWith`, the lines of a rendered script
   * `ErrLemmas`    – the malformed-line classes of C08
+  * `DomainLemmas` – `instrOKb` / `choicesOKb` imply `InstrOK` / `ChoicesOK`
 -/
 import DuckModel.Parser
 import DuckModel.Spec.Render
@@ -18,3 +19,4 @@ import DuckModel.Lemmas.LineLemmas
 import DuckModel.Lemmas.RenderLemmas
 import DuckModel.Lemmas.ScriptLemmas
 import DuckModel.Lemmas.ErrLemmas
+import DuckModel.Lemmas.DomainLemmas
